@@ -25,6 +25,8 @@ from common import (BROKEN, HELD, INCONCLUSIVE, VIOLATED, Obligation, Report, Sc
 from mirflow import DISC, Ref, Unsupported, const, fun
 from native import NativeRun
 
+import c12 as T
+
 
 def models(W):
     used = W["used"]
@@ -180,6 +182,7 @@ def run(tier, seed, only=None):
             return rep.finish()
         log("  MIR dump erg_compiler: %.0fs, %d MB" % (dt, len(text) >> 20))
         fns = M.parse_mir(text, want=["::in_context_effects_allowed"])
+        mir_text = text
         del text
         mains = [f for f in fns.values() if f.short == "in_context_effects_allowed"]
         if len(mains) != 1:
@@ -281,7 +284,11 @@ def run(tier, seed, only=None):
         c.in_context_effects_allowed()
     }
 """ % ", ".join("%d => %s" % (i, k) for i, k in enumerate(kinds))
-        nr = NativeRun(s, "erg_compiler", "crates/erg_compiler/effectcheck.rs", helpers=helpers)
+        tcases, tfinish = traversal(rep, s, mir_text, tier, seed, only, check, nq)
+        del mir_text
+        nr = NativeRun(s, "erg_compiler", "crates/erg_compiler/effectcheck.rs", helpers=helpers + NERR_HELPER)
+        for cid, expr_ in tcases:
+            nr.add(cid, expr_)
         import random
         rnd = random.Random(seed + 22)
         vecs = []
@@ -323,9 +330,10 @@ def run(tier, seed, only=None):
             if g != str(got).lower():
                 ob["verdict"] = BROKEN
                 ob["reason"] = "counterexample did not reproduce natively (%s): %s" % (g, ob["reason"])
+        tviol = tfinish(res)
         confirmed = [t for t in to_replay if t[0]["verdict"] == VIOLATED]
-        if confirmed and (tier == "thorough" or any(not rep.known.lookup(rep.prop, t[0]["key"]) for t in confirmed)):
-            e2e(s, rep, confirmed, kinds)
+        if (confirmed or tviol) and (tier == "thorough" or any(not rep.known.lookup(rep.prop, t[0]["key"]) for t in confirmed + tviol)):
+            e2e(s, rep, confirmed, kinds, tviol)
         rep.assumptions += sorted(used) + [
             "checker invariant: the bottom entry of block_stack is Module and no other entry is (SideEffectChecker::check pushes it once, before anything else)",
             "reference (from the property statement and the function's own doc comment): instant blocks inherit; Proc and Module allow side effects; Func, ConstFunc, ConstInstant forbid them",
@@ -336,7 +344,7 @@ def run(tier, seed, only=None):
         s.cleanup()
 
 
-def e2e(s, rep, confirmed, kinds):
+def e2e(s, rep, confirmed, kinds, tviol=()):
     t0 = time.time()
     tdir = os.path.join(s.root, "native")
     rc, out, dt = sh(["cargo", "build", "--offline", "--bin", "erg"], cwd=s.src, env=s.env(CARGO_TARGET_DIR=tdir), timeout=2400)
@@ -356,4 +364,315 @@ def e2e(s, rep, confirmed, kinds):
         ob["end_to_end"] = {"program": prog, "erg check exit": rc1, "accepted": rc1 == 0, "expected": "rejected" if got else "accepted",
                             "diagnostic tail": re.sub(r"\x1b\[[0-9;]*m", "", out1).strip()[-160:]}
         log("  e2e %s: stack %s, erg check rc=%s (model says the checker %s the effect)" % (ob["key"], stack, rc1, "allows" if got else "forbids"))
+    for n, (ob, prog) in enumerate(list(tviol)[:6]):
+        f = os.path.join(s.root, "e2e_t%d.er" % n)
+        open(f, "w").write(prog)
+        rc1, out1, _ = sh([exe, "check", f], env=s.env(), timeout=120)
+        rc2, out2, _ = sh([exe, "run", f], env=s.env(), timeout=120)
+        ob["end_to_end"] = {"program": prog, "erg check exit": rc1, "accepted": rc1 == 0, "erg run prints hello": "hello" in out2}
+        log("  e2e %s: erg check rc=%s, run prints hello: %s" % (ob["key"], rc1, "hello" in out2))
     log("  e2e stage: %.0fs" % (time.time() - t0))
+
+
+
+# ---------------------------------------------------------------------------------------------
+# stage 2: check_expr visits every eagerly evaluated child, and reports a procedure call made where effects are forbidden
+
+def children(sp):
+    """names of the opaque leaves that are evaluated when the node built from `sp` is evaluated (same reference as C12)"""
+    k = sp[0]
+    if k == "leaf":
+        return [sp[1]]
+    if k != "expr":
+        return []
+    v, pl = sp[1], sp[2]
+    out = []
+
+    def sub(x):
+        out.extend(children(x))
+    if v == "Call":
+        f = pl[2]
+        sub(f["obj"][1])
+        a = f["args"][2]
+        for x in a["pos_args"][1]:
+            sub(x[2]["expr"])
+        if a["var_args"][0] == "some":
+            sub(a["var_args"][1][1][2]["expr"])
+        for x in a["kw_args"][1]:
+            sub(x[2]["expr"])
+    elif v == "BinOp":
+        sub(pl[2]["lhs"][1]); sub(pl[2]["rhs"][1])
+    elif v == "UnaryOp":
+        sub(pl[2]["expr"][1])
+    elif v in ("List", "Tuple", "Set"):
+        inner = pl[3]
+        if pl[2] == "Normal":
+            for x in inner[2]["elems"][2]["pos_args"][1]:
+                sub(x[2]["expr"])
+        elif pl[2] == "WithLength":
+            sub(inner[2]["elem"][1])
+            ln = inner[2]["len"]
+            sub(ln[1] if ln[0] == "box" else ln[1][1])
+    elif v == "Dict":
+        for kv in pl[3][2]["kvs"][1]:
+            sub(kv[2]["key"]); sub(kv[2]["value"])
+    elif v == "TypeAsc":
+        sub(pl[2]["expr"][1])
+    elif v == "Accessor" and pl[2] == "Attr":
+        sub(pl[3][2]["obj"][1])
+    return out
+
+
+TRAVERSAL_SHAPES = ["call/args", "call/var-args", "call/method", "binop", "unaryop", "list", "list-with-length", "tuple", "set", "set-with-length", "dict",
+                    "type-ascription", "attribute", "list3", "nested/method-on-binop"]
+FPRELUDE = T.PRELUDE
+
+
+def fprogram(template, assign):
+    """the shape as the initialiser of a local variable of a *function*"""
+    t = template
+    for k, v in assign.items():
+        t = t.replace("«%s»" % k, "p!()" if v else "1")
+    body = "\n".join("    " + ln for ln in t.split("\n"))
+    return FPRELUDE + "g w =\n" + body + "\n    w\nprint! g 1\n"
+
+
+def traversal_models(W):
+    base = T.models(W)
+    used = W["used"]
+
+    def m(name):
+        def deco(f):
+            def g(flow, P, callee, args):
+                used.add(name)
+                return f(flow, P, callee, args)
+            return g
+        return deco
+
+    @m("check_expr on a sub-expression: recorded as a visit of that child (an opaque leaf) or inlined (a known node)")
+    def rec(flow, P, callee, args):
+        v = flow.deref_all(P, args[1])
+        if isinstance(v, tuple) and v[0] == "agg" and v[1] == "Box":
+            v = flow.deref_all(P, v[2][0][2][0])
+        if z3.is_expr(v):
+            for name, (eff, imp, key, t) in W["tree"].leaves.items():
+                if t.eq(v):
+                    P.calls.append(("VISIT", [name], None))
+                    return const("unit")
+            raise Unsupported("check_expr on an unknown term %s" % v)
+        if W["depth"] > 6:
+            raise Unsupported("recursion depth")
+        W["depth"] += 1
+        try:
+            return flow.inline(P, W["main"], args)
+        finally:
+            W["depth"] -= 1
+
+    @m("in_context_effects_allowed(): a solver boolean (decided by the depth obligations above)")
+    def allowed(flow, P, callee, args):
+        return flow.mkbool(P, z3.Bool("allowed"))
+
+    @m("constructor_destructor_check / EffectErrors::push / error constructors: recorded, no effect on the traversal")
+    def noop(flow, P, callee, args):
+        P.calls.append(("NOTE:" + callee.rsplit("::", 1)[-1], [], None))
+        return const("unit")
+
+    def has_effect(flow, P, callee, args):
+        P.calls.append(("REPORT", [], None))
+        return const("err")
+
+    def closure_fn(flow, callee):
+        mm = re.search(r"\{closure@([^}]*)\}", callee)
+        if not mm:
+            raise Unsupported("closure type in " + callee)
+        loc = mm.group(1).strip()
+        c = [f for f in flow.fns.values() if "{closure#" in f.short and f.params and loc in f.params[0][1]]
+        if len({f.name for f in c}) != 1:
+            raise Unsupported("closure at %s not found uniquely" % loc)
+        return c[0]
+
+    @m("Iterator::for_each / Option::map / Option::unwrap_or / Option::is_some_and over shape-concrete values (std contract; closures inlined)")
+    def for_each(flow, P, callee, args):
+        it = args[0]
+        if isinstance(it, Ref):
+            it = flow.read(P, it.local, list(it.path))
+        if not (isinstance(it, tuple) and it[0] == "iter"):
+            raise Unsupported("for_each on %r" % (it,))
+        fn = closure_fn(flow, callee)
+        for e in it[1][it[2]:]:
+            first = flow.new_place(P, "pclo", args[1]) if fn.params[0][1].startswith("&") else args[1]
+            flow.inline(P, fn, [first, e])
+        return const("unit")
+
+    def o_map(flow, P, callee, args):
+        o = args[0]
+        if not (isinstance(o, tuple) and o[0] == "agg" and o[1].startswith("Option::")):
+            raise Unsupported("Option::map on %r" % (o,))
+        if o[1].endswith("None"):
+            return ("agg", "Option::None", [])
+        fn = closure_fn(flow, callee)
+        first = flow.new_place(P, "pclo", args[1]) if fn.params[0][1].startswith("&") else args[1]
+        return ("agg", "Option::Some", [flow.inline(P, fn, [first, o[2][0]])])
+
+    def o_unwrap_or(flow, P, callee, args):
+        o = args[0]
+        if isinstance(o, tuple) and o[0] == "agg" and o[1].startswith("Option::"):
+            return o[2][0] if o[1].endswith("Some") else args[1]
+        raise Unsupported("unwrap_or on %r" % (o,))
+
+    def it_next(flow, P, callee, args):
+        r = args[0]
+        it = flow.read(P, r.local, list(r.path))
+        if not (isinstance(it, tuple) and it[0] == "iter"):
+            raise Unsupported("next on %r" % (it,))
+        if it[2] < len(it[1]):
+            flow.write(P, r.local, list(r.path), ("iter", it[1], it[2] + 1))
+            return ("agg", "Option::Some", [it[1][it[2]]])
+        return ("agg", "Option::None", [])
+
+    def it_id(flow, P, callee, args):
+        return args[0]
+
+    extra = [
+        (r"SideEffectChecker::<'_>::check_expr$|SideEffectChecker::check_expr$", rec),
+        (r"::in_context_effects_allowed$", allowed),
+        (r"::constructor_destructor_check$", noop),
+        (r"EffectError::has_effect$|CompileError::has_effect$", has_effect),
+        (r"EffectErrors::push$|CompileErrors::push$|Vec::<.*>::push$", noop),
+        (r"as Iterator>::for_each::", for_each),
+        (r"^Option::<.*>::map::", o_map),
+        (r"^Option::<.*>::unwrap_or$", o_unwrap_or),
+        (r"as IntoIterator>::into_iter$", it_id),
+        (r"as Iterator>::next$", it_next),
+    ]
+    return extra + base
+
+
+def traversal(rep, s, fns_text, tier, seed, only, check, nq):
+    """returns (native cases to add, finisher(res)) so that one native build serves both stages"""
+    esrc = s.read("crates/erg_compiler/effectcheck.rs")
+    hsrc = s.read("crates/erg_compiler/hir.rs")
+    rep.add_function("SideEffectChecker::check_expr", "crates/erg_compiler/effectcheck.rs", extract_fn(esrc, "check_expr"))
+    structs = {}
+    for mm in re.finditer(r"pub struct (\w+)\s*\{(.*?)\n\}", hsrc, re.S):
+        structs[mm.group(1)] = re.findall(r"^\s*(?:pub(?:\([^)]*\))?\s+)?(\w+)\s*:", mm.group(2), re.M)
+    for mm in re.finditer(r"pub struct (\w+)\(([^;{]*)\);", hsrc):
+        structs[mm.group(1)] = [str(i) for i in range(len([x for x in mm.group(2).split(",") if x.strip()]))]
+    vidx = {e: M.rust_enum_variants(hsrc, e) for e in T.ENUMS}
+    vidx["Option"] = ["None", "Some"]
+    fns = M.parse_mir(fns_text, want=["effectcheck::"])
+    mains = [f for f in fns.values() if f.short == "check_expr" and f.name.startswith("effectcheck::")]
+    if len(mains) != 1 or None in vidx.values():
+        rep.add(Obligation(key="visits/mir", verdict=BROKEN, reason="check_expr not found uniquely in the MIR dump (%d) or hir.rs enums unreadable" % len(mains)))
+        return [], lambda res: None
+    used = set()
+    pending = []
+    for key, sp, tmpl, tmpl_proc in T.shapes(tier):
+        if key not in TRAVERSAL_SHAPES:
+            continue
+        okey = "visits/" + key
+        if only and not any(o in okey for o in only.split(",")):
+            continue
+        ob = Obligation(dict(engine="mirsem (MIR -> z3 %s)" % z3.get_version_string(), solver="z3", functions=["SideEffectChecker::check_expr"], shape=key,
+                             symbolic=["whether effects are allowed in the current context", "procedure-ness of every type / name the code asks about"],
+                             bounds={"containers": "1-2 elements (thorough 3)"}), key=okey)
+        t0 = time.time()
+        try:
+            W = {"used": used, "main": mains[0], "depth": 0}
+            flow = S.SemFlow(fns, mains[0], traversal_models(W), vidx)
+            P0 = S.Path()
+            P0.pc = list(S.BASE_AXIOMS)
+            tree = T.Tree(flow, structs, P0)
+            tree.where, tree.obj_keys = {}, {}
+            W["tree"] = tree
+            P0.locals["p_X"] = tree.build(sp, "p_X", [])
+            T.index_tree(tree, sp, "p_X", [], [0])
+            pre = dict(P0.locals)
+            pre.update({"_1": const("self"), "_2": Ref("p_X")})
+            outs = flow.run("bb0", stop_at=(), pre=pre, pc=P0.pc)
+            need = sorted(set(children(sp)))
+            own = []
+            if sp[1] == "Call":
+                own.append(z3.Bool("isproc_ty_" + tree.obj_keys[id(sp[2])]))
+                if sp[2][2]["attr_name"][0] == "some":
+                    own.append(z3.Bool("procname_" + tree.key("p_X", [("variant", "Call"), ("field", 0), ("field", structs["Call"].index("attr_name")), ("variant", "Some"), ("field", 0)])))
+            npaths, missed, unreported = 0, set(), False
+            for Q, end in outs:
+                if end != "return" or check(Q.pc)[0] != "sat":
+                    continue
+                npaths += 1
+                seen = {c[1][0] for c in Q.calls if c[0] == "VISIT"}
+                missed |= set(need) - seen
+                if own and not any(c[0] == "REPORT" for c in Q.calls):
+                    if check(Q.pc + [z3.Not(z3.Bool("allowed")), z3.Or(own)])[0] == "sat":
+                        unreported = True
+            ob["queries"] = flow.queries + 2 * npaths
+            ob["detail"] = {"paths": npaths, "children": need}
+            if npaths == 0:
+                ob.update(verdict=BROKEN, reason="no feasible path (vacuous encoding)")
+            elif missed or unreported:
+                what = []
+                if missed:
+                    what.append("never passes the child%s %s to check_expr" % ("ren" if len(missed) > 1 else "", ", ".join("`%s`" % x for x in sorted(missed))))
+                if unreported:
+                    what.append("does not report a procedure call made where effects are forbidden")
+                ob["model"] = {"missed children": sorted(missed), "own effect unreported": unreported}
+                ob.update(verdict=VIOLATED, reason="check_expr on a %s node %s: a function may perform that effect unnoticed" % (key, " and ".join(what)))
+                pending.append((ob, key, sorted(missed), unreported, tmpl, tmpl_proc))
+            else:
+                ob.update(verdict=HELD, reason="on all %d paths every eagerly evaluated child (%s) is passed to check_expr%s" % (
+                    npaths, ", ".join(need) or "none", "; a procedure call is reported whenever effects are not allowed" if own else ""))
+            ob["solver_s"] = round(time.time() - t0, 2)
+        except Unsupported as e:
+            ob.update(verdict=INCONCLUSIVE, reason="unsupported-construct: " + str(e)[:200], solver_s=round(time.time() - t0, 2))
+        rep.add(ob)
+    rep.assumptions += sorted(used)
+    rs = lambda p: '"%s"' % p.replace("\\", "\\\\").replace('"', '\\"').replace("\n", "\\n")
+    cases = []
+    progs = []
+    for i, (ob, key, missed, unreported, tmpl, tmpl_proc) in enumerate(pending):
+        t = tmpl_proc if (unreported and not missed and tmpl_proc) else tmpl
+        if t is None:
+            progs.append(None)
+            continue
+        holes = sorted(set(re.findall(r"«(\w+)»", t)))
+        prog = fprogram(t, {h: (h in missed[:1]) for h in holes})
+        progs.append(prog)
+        cases.append(("v.%d" % i, "nerr(%s)" % rs(prog)))
+    # controls: the same function with the effect in a child that *is* visited must be rejected by the real checker
+    ctl = fprogram("x = «l» + «r»", {"l": True, "r": False})
+    cases.append(("v.ctl", "nerr(%s)" % rs(ctl)))
+
+    def finish(res):
+        if res.get("v.ctl") != "effect-error":
+            rep.add(Obligation(key="visits/control", verdict=BROKEN, reason="the control program (`x = p!() + 1` inside a function) was not rejected with an effect error by the real checker: %s" % res.get("v.ctl")))
+        for i, (ob, key, missed, unreported, tmpl, tmpl_proc) in enumerate(pending):
+            if progs[i] is None:
+                ob["verdict"] = INCONCLUSIVE
+                ob["reason"] = "no program form for this shape: the counterexample could not be replayed (%s)" % ob["reason"]
+                continue
+            got = res.get("v.%d" % i)
+            rep.replayed += 1
+            ob["native_replay"] = {"program": progs[i], "real front end + effect checker": got}
+            if got != "accepted":
+                ob["verdict"] = BROKEN
+                ob["reason"] = "counterexample did not reproduce natively (%s): %s" % (got, ob["reason"])
+        return [(ob, progs[i]) for i, (ob, *_r) in enumerate(pending) if ob["verdict"] == VIOLATED]
+    return cases, finish
+
+
+NERR_HELPER = r"""
+    fn nerr(src: &str) -> String {
+        let src = src.to_string();
+        erg_common::spawn::exec_new_thread(move || {
+            let mut b = crate::HIRBuilder::new(ErgConfig::default());
+            match b.build(src, "exec") {
+                Ok(_) => "accepted".to_string(),
+                Err(art) => {
+                    if art.errors.iter().any(|e| format!("{:?}", e.core.kind) == "HasEffect") { "effect-error".to_string() }
+                    else { format!("other-error {:?}", art.errors.iter().map(|e| format!("{:?}", e.core.kind)).collect::<Vec<_>>()) }
+                }
+            }
+        }, "nerr")
+    }
+"""
